@@ -242,6 +242,49 @@ func main() {
 			return mentions(s)
 		}
 	}
+	// go statements: `go f(a, b)` becomes `{ t0, t1 := a, b; bklvGo(func() { f(t0, t1) }) }` - the
+	// function value and the arguments are still evaluated by the spawning goroutine, as the
+	// language requires; under a scheduler the new goroutine is a thread it controls.
+	var goSites []string
+	tmpN := 0
+	rewriteGo := func(g *ast.GoStmt) ast.Stmt {
+		goSites = append(goSites, fset.Position(g.Pos()).String())
+		callx := g.Call
+		var pre []ast.Stmt
+		capture := func(e ast.Expr) ast.Expr {
+			if tv, ok := info.Types[e]; ok && (tv.Value != nil || tv.IsNil()) {
+				return e
+			}
+			tmpN++
+			id := ast.NewIdent(fmt.Sprintf("bklvT%d", tmpN))
+			pre = append(pre, &ast.AssignStmt{Lhs: []ast.Expr{id}, Tok: token.DEFINE, Rhs: []ast.Expr{e}})
+			return ast.NewIdent(id.Name)
+		}
+		switch f := callx.Fun.(type) {
+		case *ast.FuncLit:
+		case *ast.Ident:
+			if _, isFunc := info.Uses[f].(*types.Func); !isFunc {
+				if _, isBuiltin := info.Uses[f].(*types.Builtin); !isBuiltin {
+					callx.Fun = capture(f)
+				}
+			}
+		case *ast.SelectorExpr:
+			if id, ok := f.X.(*ast.Ident); ok {
+				if _, isPkg := info.Uses[id].(*types.PkgName); isPkg {
+					break
+				}
+			}
+			callx.Fun = capture(f)
+		default:
+			callx.Fun = capture(f)
+		}
+		for i, a := range callx.Args {
+			callx.Args[i] = capture(a)
+		}
+		body := &ast.BlockStmt{List: []ast.Stmt{&ast.ExprStmt{X: callx}}}
+		spawn := call("bklvGo", &ast.FuncLit{Type: &ast.FuncType{Params: &ast.FieldList{}}, Body: body})
+		return &ast.BlockStmt{List: append(pre, spawn)}
+	}
 	instrBlock = func(b *ast.BlockStmt, tick bool) {
 		if b == nil {
 			return
@@ -252,6 +295,9 @@ func main() {
 			ticks++
 		}
 		for _, s := range b.List {
+			if g, ok := s.(*ast.GoStmt); ok {
+				s = rewriteGo(g)
+			}
 			if m := headerMention(s); m != "" {
 				out = append(out, call("bklvShared", &ast.BasicLit{Kind: token.STRING, Value: fmt.Sprintf("%q", m)}))
 				sharedSites = append(sharedSites, fmt.Sprintf("%s (%s)", fset.Position(s.Pos()), m))
@@ -366,6 +412,7 @@ func main() {
 	}
 
 	overlay := map[string]string{}
+	var syncFiles, unmodelled []string
 	for i, f := range files {
 		for _, d := range f.Decls {
 			if fd, ok := d.(*ast.FuncDecl); ok && fd.Body != nil {
@@ -374,6 +421,47 @@ func main() {
 				instrExpr(gd)
 			}
 		}
+		for _, im := range f.Imports {
+			if im.Path.Value == `"sync"` {
+				im.Path.Value = `"github.com/gopatchy/bkl/bklvsync"`
+				if im.Name == nil {
+					im.Name = ast.NewIdent("sync")
+				}
+				syncFiles = append(syncFiles, names[i])
+			}
+		}
+		ast.Inspect(f, func(n ast.Node) bool {
+			switch x := n.(type) {
+			case *ast.SendStmt, *ast.SelectStmt:
+				unmodelled = append(unmodelled, fset.Position(n.Pos()).String()+" (channel operation)")
+			case *ast.UnaryExpr:
+				if x.Op == token.ARROW {
+					unmodelled = append(unmodelled, fset.Position(n.Pos()).String()+" (channel receive)")
+				}
+			case *ast.RangeStmt:
+				if tv, ok := info.Types[x.X]; ok {
+					if _, isChan := tv.Type.Underlying().(*types.Chan); isChan {
+						unmodelled = append(unmodelled, fset.Position(n.Pos()).String()+" (range over channel)")
+					}
+				}
+			case *ast.SelectorExpr:
+				if id, ok := x.X.(*ast.Ident); ok {
+					if pn, ok := info.Uses[id].(*types.PkgName); ok {
+						switch pn.Imported().Path() {
+						case "sync":
+							switch x.Sel.Name {
+							case "Mutex", "RWMutex", "WaitGroup", "Once", "Locker":
+							default:
+								unmodelled = append(unmodelled, fset.Position(n.Pos()).String()+" (sync."+x.Sel.Name+")")
+							}
+						case "sync/atomic":
+							unmodelled = append(unmodelled, fset.Position(n.Pos()).String()+" (atomic."+x.Sel.Name+")")
+						}
+					}
+				}
+			}
+			return true
+		})
 		var buf bytes.Buffer
 		if err := format.Node(&buf, fset, f); err != nil {
 			die(fmt.Errorf("%s: %w", names[i], err))
@@ -396,6 +484,11 @@ func main() {
 	hooks := filepath.Join(out, "bklv_hooks.go")
 	writeIfChanged(hooks, []byte(hooksSrc))
 	overlay[filepath.Join(repo, "bklv_hooks.go")] = hooks
+	// the scheduler-aware stand-in for package sync (a virtual package of the repository's module)
+	os.MkdirAll(filepath.Join(out, "bklvsync"), 0o755)
+	shim := filepath.Join(out, "bklvsync", "bklvsync.go")
+	writeIfChanged(shim, []byte(syncShimSrc))
+	overlay[filepath.Join(repo, "bklvsync", "bklvsync.go")] = shim
 
 	for k, v := range extra {
 		overlay[k] = v
@@ -405,6 +498,11 @@ func main() {
 	sort.Strings(rangeSites)
 	sort.Strings(sharedSites)
 	sort.Strings(keySites)
+	sort.Strings(goSites)
+	sort.Strings(unmodelled)
+	report["go_statement_sites"] = goSites
+	report["files_with_sync_routed_to_shim"] = syncFiles
+	report["unmodelled_sync_sites"] = unmodelled
 	report["maps_keys_sites"] = keySites
 	report["range_sites"] = rangeSites
 	report["shared_sites"] = sharedSites
@@ -413,7 +511,7 @@ func main() {
 	report["tick_sites"] = ticks
 	rb, _ := json.MarshalIndent(report, "", " ")
 	writeIfChanged(filepath.Join(out, "report.json"), rb)
-	fmt.Printf("vinstr: %d files, %d map-range sites, %d tick sites, %d mutable globals %v, %d shared-access sites\n", len(files), len(rangeSites), ticks, len(ml), ml, len(sharedSites))
+	fmt.Printf("vinstr: %d files, %d map-range sites, %d tick sites, %d mutable globals %v, %d shared-access sites, %d go statements, %d unmodelled sync sites\n", len(files), len(rangeSites), ticks, len(ml), ml, len(sharedSites), len(goSites), len(unmodelled))
 }
 
 // isMapType: a map type, or a type parameter whose constraint has a map core type (~map[K]V).
@@ -476,7 +574,12 @@ import (
 	"fmt"
 	"iter"
 	"sort"
+
+	"github.com/gopatchy/bkl/bklvsync"
 )
+
+// bklvGo stands for a go statement: a thread of the installed scheduler, or a plain goroutine.
+func bklvGo(f func()) { bklvsync.Go(f) }
 
 // Hooks installed by the verification harness (overlay build only).
 var (
@@ -599,3 +702,206 @@ func bklvIter[M ~map[K]V, K comparable, V any](m M, site string) iter.Seq2[K, V]
 	}
 }
 `
+
+const syncShimSrc = `// Package bklvsync stands in for package sync in the instrumented build of package bkl
+// (verification overlay only). With no scheduler installed every type behaves exactly like
+// its original; under a scheduler, Lock/Wait/Do are scheduling points and block the calling
+// thread in the scheduler instead of in the runtime.
+package bklvsync
+
+import "sync"
+
+// Scheduler is implemented by the explorer.
+type Scheduler interface {
+	Go(f func())
+	Yield(what string)
+	WaitUntil(what string, cond func() bool)
+}
+
+var Sched Scheduler
+
+func Go(f func()) {
+	if s := Sched; s != nil {
+		s.Go(f)
+		return
+	}
+	go f()
+}
+
+type (
+	Locker = sync.Locker
+	Map    = sync.Map
+	Pool   = sync.Pool
+	Cond   = sync.Cond
+)
+
+func NewCond(l Locker) *Cond                          { return sync.NewCond(l) }
+func OnceFunc(f func()) func()                        { return sync.OnceFunc(f) }
+func OnceValue[T any](f func() T) func() T            { return sync.OnceValue(f) }
+func OnceValues[A, B any](f func() (A, B)) func() (A, B) { return sync.OnceValues(f) }
+
+type Mutex struct {
+	mu   sync.Mutex
+	held bool
+}
+
+func (m *Mutex) Lock() {
+	if s := Sched; s != nil {
+		s.Yield("Mutex.Lock")
+		s.WaitUntil("Mutex.Lock", func() bool { return !m.held })
+		m.held = true
+		return
+	}
+	m.mu.Lock()
+}
+
+func (m *Mutex) TryLock() bool {
+	if s := Sched; s != nil {
+		s.Yield("Mutex.TryLock")
+		if m.held {
+			return false
+		}
+		m.held = true
+		return true
+	}
+	return m.mu.TryLock()
+}
+
+func (m *Mutex) Unlock() {
+	if Sched != nil {
+		if !m.held {
+			panic("sync: unlock of unlocked mutex")
+		}
+		m.held = false
+		return
+	}
+	m.mu.Unlock()
+}
+
+type RWMutex struct {
+	mu      sync.RWMutex
+	writer  bool
+	readers int
+}
+
+func (m *RWMutex) Lock() {
+	if s := Sched; s != nil {
+		s.Yield("RWMutex.Lock")
+		s.WaitUntil("RWMutex.Lock", func() bool { return !m.writer && m.readers == 0 })
+		m.writer = true
+		return
+	}
+	m.mu.Lock()
+}
+
+func (m *RWMutex) Unlock() {
+	if Sched != nil {
+		if !m.writer {
+			panic("sync: Unlock of unlocked RWMutex")
+		}
+		m.writer = false
+		return
+	}
+	m.mu.Unlock()
+}
+
+func (m *RWMutex) RLock() {
+	if s := Sched; s != nil {
+		s.Yield("RWMutex.RLock")
+		s.WaitUntil("RWMutex.RLock", func() bool { return !m.writer })
+		m.readers++
+		return
+	}
+	m.mu.RLock()
+}
+
+func (m *RWMutex) RUnlock() {
+	if Sched != nil {
+		if m.readers <= 0 {
+			panic("sync: RUnlock of unlocked RWMutex")
+		}
+		m.readers--
+		return
+	}
+	m.mu.RUnlock()
+}
+
+func (m *RWMutex) TryLock() bool {
+	if s := Sched; s != nil {
+		s.Yield("RWMutex.TryLock")
+		if m.writer || m.readers > 0 {
+			return false
+		}
+		m.writer = true
+		return true
+	}
+	return m.mu.TryLock()
+}
+
+func (m *RWMutex) TryRLock() bool {
+	if s := Sched; s != nil {
+		s.Yield("RWMutex.TryRLock")
+		if m.writer {
+			return false
+		}
+		m.readers++
+		return true
+	}
+	return m.mu.TryRLock()
+}
+
+type rlocker RWMutex
+
+func (r *rlocker) Lock()   { (*RWMutex)(r).RLock() }
+func (r *rlocker) Unlock() { (*RWMutex)(r).RUnlock() }
+
+func (m *RWMutex) RLocker() Locker { return (*rlocker)(m) }
+
+type WaitGroup struct {
+	wg sync.WaitGroup
+	n  int
+}
+
+func (w *WaitGroup) Add(delta int) {
+	if Sched != nil {
+		w.n += delta
+		if w.n < 0 {
+			panic("sync: negative WaitGroup counter")
+		}
+		return
+	}
+	w.wg.Add(delta)
+}
+
+func (w *WaitGroup) Done() { w.Add(-1) }
+
+func (w *WaitGroup) Wait() {
+	if s := Sched; s != nil {
+		s.Yield("WaitGroup.Wait")
+		s.WaitUntil("WaitGroup.Wait", func() bool { return w.n == 0 })
+		return
+	}
+	w.wg.Wait()
+}
+
+type Once struct {
+	once  sync.Once
+	state int // 0 not run, 1 running, 2 done
+}
+
+func (o *Once) Do(f func()) {
+	if s := Sched; s != nil {
+		s.Yield("Once.Do")
+		switch o.state {
+		case 0:
+			o.state = 1
+			defer func() { o.state = 2 }()
+			f()
+		case 1:
+			s.WaitUntil("Once.Do", func() bool { return o.state == 2 })
+		}
+		return
+	}
+	o.once.Do(f)
+}
+` + ""
